@@ -1519,13 +1519,14 @@ int unlink(const char *path) {
     KRET(C_UNLINK, 0);
 }
 
-struct SimDir { std::vector<std::string> names; size_t i = 0; struct dirent de; };
+struct SimDir { std::vector<std::string> names; size_t i = 0; struct dirent de; std::string path; };
 void *opendir(const char *path) {
     yield_point("opendir");
     std::string rp;
     if (!K->resolve(path, true, rp) || K->fs[rp].type != FsNode::DIR) { errno = ENOENT; G->trace(C_OPENDIR, -ENOENT); return nullptr; }
     SimDir *d = new SimDir;
     d->names = K->list_dir(rp);
+    d->path = rp;
     d->names.insert(d->names.begin(), {".", ".."});
     G->trace(C_OPENDIR, 1);
     return d;
@@ -1536,6 +1537,9 @@ struct dirent *readdir(void *dp) {
     memset(&d->de, 0, sizeof(d->de));
     snprintf(d->de.d_name, sizeof(d->de.d_name), "%s", d->names[d->i++].c_str());
     d->de.d_ino = 1;
+    d->de.d_type = DT_DIR;
+    auto it = K->fs.find(d->path + "/" + d->de.d_name);
+    if (it != K->fs.end()) d->de.d_type = it->second.type == FsNode::DIR ? DT_DIR : it->second.type == FsNode::LNK ? DT_LNK : it->second.type == FsNode::SOCK ? DT_SOCK : DT_REG;
     return &d->de;
 }
 int closedir(void *dp) { delete (SimDir *)dp; return 0; }
